@@ -19,6 +19,8 @@ use common::{Ctx, Tier};
 #[global_allocator]
 static GLOBAL: guard_alloc::Guard = guard_alloc::Guard;
 
+static LAST_PANIC: std::sync::Mutex<String> = std::sync::Mutex::new(String::new());
+
 fn main() {
     // anyhow captures a backtrace (global lock) per error when RUST_BACKTRACE is set
     std::env::set_var("RUST_BACKTRACE", "0");
@@ -29,7 +31,14 @@ fn main() {
         std::process::exit(2);
     }
     // the subject's panics are caught where they are meaningful; keep the default hook quiet
-    std::panic::set_hook(Box::new(|_| {}));
+    // (the last message is kept so that a panic escaping to main is reported, not a silent exit 101)
+    std::panic::set_hook(Box::new(|info| {
+        let loc = info.location().map(|l| format!("{}:{}", l.file(), l.line())).unwrap_or_default();
+        let msg = info.payload().downcast_ref::<&str>().map(|s| s.to_string()).or_else(|| info.payload().downcast_ref::<String>().cloned()).unwrap_or_default();
+        if let Ok(mut g) = LAST_PANIC.try_lock() {
+            *g = format!("{msg} @ {loc}");
+        }
+    }));
     if args[1] == "c20-worker" {
         std::process::exit(props::c20::worker_main(&args[2..]));
     }
@@ -53,10 +62,16 @@ fn main() {
     if let Ok(k) = std::env::var("VERIF_SELFTEST_CRASH") {
         watchdog::selftest_crash(&k);
     }
-    let cov = match props::dispatch(ctx) {
-        Some(c) => c,
-        None => {
+    let cov = match std::panic::catch_unwind(std::panic::AssertUnwindSafe(|| props::dispatch(ctx))) {
+        Ok(Some(c)) => c,
+        Ok(None) => {
             eprintln!("unknown property {}", args[1]);
+            std::process::exit(2);
+        }
+        Err(_) => {
+            // a panic escaped a job (harness bug or an unguarded engine call): no verdict
+            let m = LAST_PANIC.lock().map(|g| g.clone()).unwrap_or_default();
+            println!("MACHINERY-ERROR property={} escaped panic: {}", args[1], m);
             std::process::exit(2);
         }
     };
